@@ -106,9 +106,10 @@ def streams(tier, rng, P, only=None, cases=None):
             if form < 0.5: body.insert(k, "?")
             else:
                 m = rng.randint(1, 3); b = rng.randint(1, 4); t = rng.choice([0, 0, 10, 48])
-                body.insert(k, "PlayFrom(%d:%d:%d)" % (m, b, t))
+                body.insert(k, rng.choice(["PlayFrom(%d:%d:%d)", "PlayFrom(%d:%d:%d)", "PLAY_FROM(%d:%d:%d)"]) % (m, b, t))      # (both spellings of the command)
             src = " ".join(body)
             cs.append(dict(req="run " + hx(src), src=src, show=src, key="ps%d" % i))
+            if form >= 0.5: cs[-1]["want_pf"] = (m - 1) * 384 + (b - 1) * 96 + t      # (time base 96, 4/4: the point the text names, under either spelling)
         cs.append(dict(req="run " + hx("y7,100 @5; c d e PlayFrom(1:2:0)"), src="y7,100 @5; c d e PlayFrom(1:2:0)", show="y7,100 @5; c d e PlayFrom(1:2:0)", key="fixed0"))
         cs.append(dict(req="run " + hx("y200,1 c c PlayFrom(1:2:0)"), src="y200,1 c c PlayFrom(1:2:0)", show="y200,1 c c PlayFrom(1:2:0)", key="fixed1"))
         # the point at tick 0 is a point like any other: what starts before it (a negative timing, a position before the first bar) is omitted
@@ -135,6 +136,8 @@ def streams(tier, rng, P, only=None, cases=None):
         st, f = impl
         if st != "ok": return ("violation", "program with a play-from point did not compile: " + st)
         pf = int(f["pf"])
+        if c.get("want_pf") is not None and pf != c["want_pf"]:
+            return ("violation", "the play-from point in force is tick %d, the text names tick %d" % (pf, c["want_pf"]))
         if pf < 0: return None
         lawed = ";".join(x.split("ev=")[1] for x in m)
         c["_lawed"] = lawed
@@ -198,7 +201,7 @@ def streams(tier, rng, P, only=None, cases=None):
             body = []
             for _ in range(rng.randrange(6, 14)):
                 body.append(rng.choice(["cdef", "Sub{ l1 'ceg' 'dfa' } l8 cdefgab>c<", "'ce' 'df' 'eg'", "l8 cdefgab", "Sub{ l2 c e } l4 g a b g", "[2 c e g]", "l16 cdefgfed"]))
-            pf = rng.choice(["PlayFrom(2:1:0)", "PlayFrom(1:3:0)", "PlayFrom(3:1:0)", "TIME(2:1:0) ?"])
+            pf = rng.choice(["PlayFrom(2:1:0)", "PlayFrom(1:3:0)", "PlayFrom(3:1:0)", "TIME(2:1:0) ?", "PLAY_FROM(1:3:0)", "TIME(2:1:0) PlayFromHere"])
             src = head + " ".join(body) + " " + pf
             cs.append(dict(req="compile %s 0 en lib" % hx(src), src=src, show=src[:300], key="pm%d" % i))
         return cs
